@@ -48,7 +48,8 @@ class RefBus:
         if model == "py":
             ovs.append((0x40000, 0x4FFFF, "memory_card_slot", "pycard", None))
             if cfg.get("rom"):
-                ovs.append((0xC0000, 0xFFFFF, "internal_rom", "rom", {"seed": 99, "size": 0x40000, "start": 0xC0000}))
+                ovs.append((0xC0000, 0xFFFFF, "internal_rom", "rom",
+                            {"seed": 99, "size": 0x40000, "start": 0xC0000, "data_len": cfg.get("rom_len", 0x40000)}))
         else:
             if card == "absent":
                 ovs.append((0x40000, 0x4FFFF, "memory_card_slot", "absent", None))
@@ -86,6 +87,9 @@ class RefBus:
                 if k == "ram":
                     return "ram", ("ov", name, off), 0
                 if k == "rom":
+                    if off >= o.get("data_len", o["size"]):
+                        # read-only window beyond its backing data: reads fall through to the base store, writes never land
+                        return "rom", ("e", self.base_index(a)), 0
                     return "rom", ("ov", name, off), fill_byte((o["seed"] * 0x10000 + off) & 0xFFFFFFFF)
                 if k == "pycard":
                     c = self.cfg.get("card", 65536)
@@ -129,6 +133,9 @@ def boundaries(cfg, model):
            0x100100, 0x1001FF, 0x1FFFFF, 0x200000, 0xFFFFFF, 0x1000000, 0x1100000, 0x10FFFFF, 0xFFFFFFFF, 0x80000000]
     for o in cfg.get("overlays", []):
         pts += [o["start"], o["start"] + o["size"] - 1, o["start"] + o["size"]]
+    if cfg.get("rom_len"):
+        e = 0xC0000 + cfg["rom_len"]
+        pts += [e - 2, e - 1, e, e + 1, e + 0x1234, 0xFFEFF]
     for (s, e) in cfg.get("readonly", []):
         pts += [s, e, e + 1]
     return pts
@@ -167,11 +174,13 @@ def gen_history(r, cfg, model, n, clean=False):
 def configs(model, r):
     out = []
     if model == "py":
-        for rom in (False, True):
+        for rom in (False, True, "short"):
             for card in ("absent", 8192, 16384, 32768, 65536, "ro"):
-                for ov in ("none", "ram", "rom", "overlap"):
-                    cfg = {"rom": rom, "card": 32768 if card == "ro" else card, "card_readonly": card == "ro",
+                for ov in ("none", "ram", "rom", "overlap", "ro_nodata"):
+                    cfg = {"rom": bool(rom), "card": 32768 if card == "ro" else card, "card_readonly": card == "ro",
                            "card_loaded": card not in ("absent",), "card_seed": 7, "overlays": _ovs(ov, r)}
+                    if rom == "short":
+                        cfg["rom_len"] = 0x8000      # image shorter than the 256 KiB window
                     out.append(cfg)
     else:
         for mirror in (False, True):
@@ -192,6 +201,8 @@ def _ovs(kind, r):
         return [{"kind": "ram", "start": base + 0x10, "size": 0x40, "seed": 1, "name": "xram"}]
     if kind == "rom":
         return [{"kind": "rom", "start": base + 0x10, "size": 0x40, "seed": 5, "name": "xrom"}]
+    if kind == "ro_nodata":   # a read-only window without backing data (Python only): nothing behind it may ever change
+        return [{"kind": "rom", "start": base + 0x10, "size": 0x40, "seed": 5, "name": "xro", "data_len": 0}]
     return [{"kind": "ram", "start": base + 0x10, "size": 0x40, "seed": 1, "name": "xram"},
             {"kind": "rom", "start": base + 0x30, "size": 0x40, "seed": 5, "name": "xrom"}]
 
@@ -201,7 +212,7 @@ def build_py(cfg):
     from pce500.memory import PCE500Memory
     m = PCE500Memory()
     if cfg.get("rom"):
-        m.load_rom(seeded(99, 0x40000))
+        m.load_rom(seeded(99, cfg.get("rom_len", 0x40000)))
     c = cfg.get("card")
     if c == "absent":
         m.set_memory_card_present(False)
@@ -210,6 +221,10 @@ def build_py(cfg):
     for o in cfg.get("overlays", []):
         if o["kind"] == "ram":
             m.add_ram(o["start"], o["size"], o["name"])
+        elif o.get("data_len") == 0:
+            from pce500.memory_bus import MemoryOverlay
+            m.add_overlay(MemoryOverlay(start=o["start"], end=o["start"] + o["size"] - 1, name=o["name"], data=None,
+                                        read_only=True))
         else:
             m.add_rom(o["start"], seeded(o["seed"], o["size"]), o["name"])
     return m
@@ -240,7 +255,7 @@ def run_py(res, cfg, ops, r, clean=False):
             if got != want:
                 kinds = sorted({ref.klass(ref.canon(a + j))[0] + ":" + ref.canon(a + j)[0] for j in range(nb)})
                 res.violation({"clause": "read_value", "model": "py", "where": region(a, "py", cfg), "bits": bits,
-                               "rom": bool(cfg.get("rom"))}, case,
+                               "rom": rom_tag(cfg)}, case,
                               {"step": i, "addr": hex(a), "got": got, "want": want, "classes": kinds})
                 return
             if nb > 1:
@@ -272,7 +287,7 @@ def run_py(res, cfg, ops, r, clean=False):
             distinct_keys = len({c[0] for c in changes})
             if nchanged != distinct_keys:
                 res.violation({"clause": "store_changed_other_bytes", "model": "py", "where": region(a, "py", cfg), "bits": bits,
-                               "rom": bool(cfg.get("rom"))},
+                               "rom": rom_tag(cfg)},
                               case, {"step": i, "addr": hex(a), "backing_bytes_changed": nchanged,
                                      "reference_locations_changed": distinct_keys})
                 return
@@ -292,7 +307,7 @@ def run_py(res, cfg, ops, r, clean=False):
                 w = ref.read(p)
                 if g != w:
                     res.violation({"clause": "alias_or_twin_read", "model": "py", "where": region(p, "py", cfg),
-                                   "rom": bool(cfg.get("rom"))}, case,
+                                   "rom": rom_tag(cfg)}, case,
                                   {"step": i, "stored_at": hex(a), "probe": hex(p), "got": g, "want": w})
                     return
             if changes:
@@ -316,9 +331,18 @@ def straddles(ref, a, nb, model, cfg):
     return len(ks) > 1 or hi < lo or (lo < IMEM <= hi) or (lo < IMEM + 0x100 <= hi) or mirror_block_edge
 
 
+def rom_tag(cfg):
+    """False | True (full 256 KiB image) | "short" (image shorter than the window: the base store shows through)."""
+    if not cfg.get("rom"):
+        return False
+    return "short" if cfg.get("rom_len", 0x40000) < 0x40000 else True
+
+
 def region(a, model, cfg):
     """Coarse region label of an address (for finding keys)."""
     x = a & 0xFFFFFF
+    if model == "py" and x < IMEM and 0xFFF00 - 3 <= (x & 0xFFFFF) < 0xFFF00:
+        return "external_top_256"    # a wide access starting just below reaches into the top 256 bytes
     if model == "py":
         if x >= IMEM:
             return "internal" if x < IMEM + 0x100 else "internal_alias_above_1000FF"
